@@ -3,6 +3,7 @@ CONSTANTS
   Methods = {"collect_paths", "collect_by_line"}
   MaxLen = 2
   Start = 46795
+  MoveSet = {"same", "plus1", "to13", "midnight"}
 INIT Init
 NEXT Next
 INVARIANT FreshDir
